@@ -30,8 +30,9 @@ func (i *verifC16Input) RunIds() []string {
 	return i.ids
 }
 
-// VerifC16Syncer returns a syncer whose ServiceReplica serves `ch` as a replica leader.
-func VerifC16Syncer(ch Channel, ids []string, serving, started bool) Syncer {
+// VerifC16Syncer returns a syncer whose ServiceReplica serves `ch` as a replica leader, and
+// a function closing the wait its handlers run under (what runLeader's exit does).
+func VerifC16Syncer(ch Channel, ids []string, serving, started bool) (Syncer, func()) {
 	leader := NewReplicaLeader(&verifC16Input{ids: ids}, ch)
 	if started {
 		leader.Start()
@@ -41,5 +42,5 @@ func VerifC16Syncer(ch Channel, ids []string, serving, started bool) Syncer {
 	if serving {
 		sy.role = SyncerRoleLeader
 	}
-	return sy
+	return sy, func() { sy.wait.Close(nil) }
 }
